@@ -184,6 +184,34 @@ type writeScan struct {
 	fresh map[string]bool   // locals that hold an object allocated in this function (not shared until published)
 	out   map[[2]string]bool
 	calls map[callRef]bool // functions this one refers to (for the reachability estimate)
+	// how each reported write is synchronised, syntactically (nil: not recorded):
+	locked string                   // mutex expression of the X.Lock()/RLock() whose region we are lexically in ("" none)
+	ev     map[[2]string][2]string  // (function, target) -> (kind, mutex); kind: lock | deref | plain (weakest wins)
+	sites  map[string][]string      // plain function name -> lock state at each of its call sites
+}
+
+// record reports a write to a shared object together with the syntactic evidence of its
+// synchronisation: inside a Lock()…Unlock() region of this function ("lock", mutex), through a
+// pointer the caller passed or the function holds ("deref"), or neither ("plain").
+func (w *writeScan) record(e ast.Expr) {
+	k := [2]string{w.fn.name(), w.describe(e)}
+	w.out[k] = true
+	if w.ev == nil {
+		return
+	}
+	kind := [2]string{"plain", ""}
+	if w.locked != "" {
+		kind = [2]string{"lock", w.locked}
+	} else if strings.HasPrefix(k[1], "*") {
+		kind = [2]string{"deref", ""}
+	}
+	rank := map[string]int{"plain": 0, "deref": 1, "lock": 2}
+	if old, ok := w.ev[k]; !ok || rank[kind[0]] < rank[old[0]] || (kind[0] == "lock" && old[0] == "lock" && old[1] != kind[1]) {
+		if ok && kind[0] == "lock" && old[0] == "lock" && old[1] != kind[1] {
+			kind = [2]string{"plain", ""} // two different mutexes: no single lock protects the target
+		}
+		w.ev[k] = kind
+	}
 }
 
 // callRef names a callee: recv = qualified receiver type ("" plain function, "?" unresolved method)
@@ -399,14 +427,14 @@ func (w *writeScan) target(e ast.Expr) {
 			return
 		}
 		if _, local := w.env[b.Name]; !local && w.ix.pkgVars[w.fn.pkg][b.Name] {
-			w.out[[2]string{w.fn.name(), w.describe(e)}] = true
+			w.record(e)
 			return
 		}
 		if wrapped {
 			// *p = … through a pointer parameter or local: report pointer writes (their targets are
 			// decided by the caller); element writes through a plain local slice/map are not tracked
 			if _, isStar := stripParen(e).(*ast.StarExpr); isStar {
-				w.out[[2]string{w.fn.name(), w.describe(e)}] = true
+				w.record(e)
 			}
 		}
 	case *ast.SelectorExpr, *ast.TypeAssertExpr, *ast.CallExpr:
@@ -440,7 +468,7 @@ func (w *writeScan) target(e ast.Expr) {
 			_, shared = w.chainType(base)
 		}
 		if shared {
-			w.out[[2]string{w.fn.name(), w.describe(e)}] = true
+			w.record(e)
 		}
 	}
 }
@@ -550,7 +578,25 @@ func (w *writeScan) scan() {
 				}
 				w.calls[callRef{"", t, x.Sel.Name}] = true
 			}
+		case *ast.DeferStmt:
+			// `defer mu.Unlock()` ends the region at function exit, not here
+			if sel, ok := x.Call.Fun.(*ast.SelectorExpr); ok && (sel.Sel.Name == "Unlock" || sel.Sel.Name == "RUnlock") {
+				return false
+			}
 		case *ast.CallExpr:
+			if sel, ok := x.Fun.(*ast.SelectorExpr); ok && len(x.Args) == 0 {
+				switch sel.Sel.Name {
+				case "Lock", "RLock":
+					w.locked = exprString(sel.X)
+				case "Unlock", "RUnlock":
+					w.locked = ""
+				}
+			}
+			if id, ok := x.Fun.(*ast.Ident); ok && w.sites != nil {
+				if _, local := w.env[id.Name]; !local {
+					w.sites[id.Name] = append(w.sites[id.Name], w.locked)
+				}
+			}
 			if id, ok := x.Fun.(*ast.Ident); ok && len(x.Args) > 0 {
 				switch id.Name {
 				case "delete", "clear":
@@ -874,11 +920,34 @@ func init() {
 		fmt.Fprintf(&b, "/-- functions that call `initCaches` -/\ndef initCachesCallers : List String := %s\n\n", leanStrList(initCallers))
 		// shared write-set
 		all := map[[2]string]bool{}
+		evid := map[[2]string][2]string{}
+		sites := map[string][]string{}
 		calls := make([]map[callRef]bool, len(ix.funcs))
 		for i, fn := range ix.funcs {
 			calls[i] = map[callRef]bool{}
-			w := &writeScan{ix: ix, fn: fn, env: map[string]string{}, fresh: map[string]bool{}, out: all, calls: calls[i]}
+			w := &writeScan{ix: ix, fn: fn, env: map[string]string{}, fresh: map[string]bool{}, out: all, calls: calls[i], ev: evid, sites: sites}
 			w.scan()
+		}
+		// a plain function all of whose call sites lie inside a Lock region of one and the same mutex
+		// runs with that mutex held by its caller
+		for k, e := range evid {
+			if e[0] != "plain" {
+				continue
+			}
+			name := k[0][strings.Index(k[0], ":")+1:]
+			if strings.Contains(name, ".") {
+				continue // a method: call sites are not resolved
+			}
+			ss := sites[name]
+			held := len(ss) > 0
+			for _, m := range ss {
+				if m == "" || m != ss[0] {
+					held = false
+				}
+			}
+			if held {
+				evid[k] = [2]string{"callerlock", ss[0]}
+			}
 		}
 		keys := make([][2]string, 0, len(all))
 		for k := range all {
@@ -897,6 +966,15 @@ func init() {
 				b.WriteString(",\n")
 			}
 			fmt.Fprintf(&b, "  (%s, %s, %v)", strconv.Quote(k[0]), strconv.Quote(k[1]), reach[k[0]])
+		}
+		b.WriteString("]\n\n")
+		b.WriteString("/-- for every entry of `sharedWrites`, in the same order: (function, target, kind, mutex) -- the syntactic\n    evidence of how the write is synchronised: `lock` = lexically inside `mutex.Lock()`…`Unlock()` of the function\n    (every occurrence, one mutex), `callerlock` = a plain function whose call sites all lie inside such a region,\n    `deref` = a store through a pointer (`*p = …`), `plain` = none of these -/\ndef sharedWriteSync : List (String × String × String × String) := [\n")
+		for i, k := range keys {
+			if i > 0 {
+				b.WriteString(",\n")
+			}
+			e := evid[k]
+			fmt.Fprintf(&b, "  (%s, %s, %s, %s)", strconv.Quote(k[0]), strconv.Quote(k[1]), strconv.Quote(e[0]), strconv.Quote(e[1]))
 		}
 		b.WriteString("]\n\nend RegexVerif.Generated\n")
 		return b.String(), nil
